@@ -367,6 +367,11 @@ fn content_lines(content: &str) -> Vec<&str> {
 }
 
 pub fn simple_number(s: &str) -> Option<f64> {
+    // the spellings of not-a-number and the infinities that the generators write (f64::from_str
+    // accepts them); comparisons are by IEEE total order (-0 < 0, every number < nan)
+    if ["nan", "NaN", "inf", "-inf"].contains(&s) {
+        return s.parse::<f64>().ok();
+    }
     let body = s.strip_prefix('-').unwrap_or(s);
     let (int, frac) = match body.split_once('.') {
         Some((i, f)) => (i, Some(f)),
@@ -424,7 +429,8 @@ fn eval_keep_sorted(b: &BlockLayout) -> RuleOutcome {
                 let (Some(a), Some(c)) = (simple_number(p), simple_number(cur)) else {
                     return RuleOutcome::Err(format!("non-numeric key among {p:?}, {cur:?}"));
                 };
-                if dir == "asc" { a > c } else { a < c }
+                let ord = a.total_cmp(&c);
+                if dir == "asc" { ord.is_gt() } else { ord.is_lt() }
             } else if dir == "asc" {
                 p > cur
             } else {
@@ -1012,7 +1018,8 @@ pub fn invalid_reason(world: &World) -> Option<String> {
                         let desc = v.eq_ignore_ascii_case("desc");
                         let nums: Vec<f64> = keys.iter().filter_map(|k| simple_number(k)).collect();
                         for w in nums.windows(2) {
-                            if (!desc && w[0] > w[1]) || (desc && w[0] < w[1]) {
+                            let ord = w[0].total_cmp(&w[1]);
+                            if (!desc && ord.is_gt()) || (desc && ord.is_lt()) {
                                 return Some("non-numeric key in an unordered numeric list".into());
                             }
                         }
